@@ -398,6 +398,7 @@ def describe(exc):
         foreign = f"{pkg}:{func}"
     is_raise = bool(in_tree and (raise_op if raise_op is not None else _is_raise_text(fn, line)))
     return {
+        "funcs": sorted({fu for (fi, li, fu, _) in frames if env.in_tree(fi)}),
         "type": type(exc).__name__, "entry": entry, "site": site, "foreign": foreign, "in_tree": in_tree,
         "is_raise": is_raise, "progress": fn.endswith(os.sep + "progress.py"),
         "where": f"{os.path.relpath(fn, env.SRC) if in_tree else fn.split('site-packages/')[-1]}:{line} in {func}", "remote": remote,
@@ -475,10 +476,13 @@ def _cell(ep, opts):
 
 
 def _label(ep, opts):
-    return opts.get("method", ep) if ep == "drt" else ep
+    if ep == "drt":
+        m = opts.get("method", "tr-nnls")
+        return m if m in ("tr-nnls", "lm", "bht", "mrq-fit", "tr-rbf") else "drt"
+    return ep
 
 
-def run_call(ep, opts, f, Z, out):
+def run_call(ep, opts, f, Z, out, rseed=0):
     """Run one call under the monitors and apply the oracle. `out` accumulates evals/keys/viol/stats/maxobs."""
     global TRACE
     from pyimpspec import DataSet, progress as P
@@ -486,7 +490,7 @@ def run_call(ep, opts, f, Z, out):
     st, mx = out["stats"], out["maxobs"]
     name = _label(ep, opts)
     sparse, n, ppd = size_class(f)
-    replay = {"kind": "explicit", "ep": ep, "opts": opts, "f": [float(x) for x in f], "Z": [[float(z.real), float(z.imag)] for z in Z]}
+    replay = {"kind": "explicit", "ep": ep, "opts": opts, "f": [float(x) for x in f], "Z": [[float(z.real), float(z.imag)] for z in Z], "rseed": int(rseed)}
 
     def bump(k, v=1):
         st[k] = st.get(k, 0) + v
@@ -503,6 +507,7 @@ def run_call(ep, opts, f, Z, out):
         bump("dataset_refused")
         return None
     before = dict(P._CALLBACKS)
+    np.random.seed(int(rseed) % (2**32))  # BHT and differential evolution draw from the global numpy RNG
     trace = TRACE = Trace()
     handle = P.register(_callback)
     t0 = time.time()
@@ -617,10 +622,10 @@ def known_key(ent, ep, opts, exc, d, n):
     if ent == "kk" and isinstance(exc, AssertionError) and "daemonic processes are not allowed to have children" in msg:
         if ep != "kk" or (opts.get("test") == "cnls" and int(opts.get("num_F_ext_evaluations", 20)) > 0 and int(opts.get("num_procs", -1)) != 1):
             return "C18/kk/cnls-nested-pool"
+    if ent == "bht" and type(exc).__name__ == "LinAlgError" and ("_perform_attempts" in d.get("funcs", []) or "_hilbert_transform_process" in d.get("funcs", [])):
+        return "C18/bht/all-attempts-failed:LinAlgError"
     if ent == "zhit" and ep == "zhit" and type(exc) is ValueError and d["site"] == "_smooth_phase" and int(opts.get("num_points", 3)) > n:
-        for fn, nm in (("savgol_filter", "savgol"), ("lowess", "lowess")):
-            if foreign.endswith(fn) and opts.get("smoothing", "modsinc") in (nm, "auto"):
-                return f"C18/zhit/num_points-exceeds-data:{nm}"
+        return "C18/zhit/num_points-exceeds-data"  # fixed in 6cfc611; fires again if the up-front check disappears
     return None
 
 
@@ -740,7 +745,7 @@ def _kk_models(full, cnls):
                  "rapid": [True, False], "grid": ["default", "asym", "zero-min"], "np": [1]}]
     if cnls:
         return [
-            {"test": tests, "adm": [False, False, True, None], "C": [True, False], "L": [True, False], "numrc": ["auto"], "nfe": [-10, 10, 11, 20],
+            {"test": tests, "adm": [False, True], "C": [True, False], "L": [True, False], "numrc": ["auto"], "nfe": [-10, 10, 11],
              "rapid": [True, False], "grid": ["default", "asym"], "np": [1, 2]},
             {"test": tests, "adm": [False, True, None], "C": [True, False], "L": [True, False], "numrc": ["auto", "valid", "max"], "nfe": [0],
              "rapid": [True], "grid": ["default"], "lfe": [0.0, 0.7], "np": [1, 2]},
@@ -912,6 +917,14 @@ def gen_cases(tier, seed):
         {"test": "bogus", "num_RC": 3, "num_F_ext_evaluations": 0, "num_procs": 1},
     ]
     cases += _pack("kk", sp, extra, [8, 2, 2, 2, 0.1, 0.3, 0.01, 0.01, 0.01, 0.01], budget, "kk:extra")
+    # inputs of repaired defects (must keep working): singular normal matrix of complex-inv at 21 points / 10 per decade;
+    # failed target-num_RC estimate + NaN line fit on a negative-resistance spectrum at 25 points / 5 per decade
+    sp = {"n": 21, "ppd": 10.0, "logf0": 4.0, "fam": "rc", "noise": 0.0, "seed": [18, 1, 1]}
+    cases += _pack("kk", sp, [{"test": "complex-inv", "num_procs": 1}, {"test": "complex-inv", "admittance": True, "num_F_ext_evaluations": 10, "num_procs": 1}],
+                   [3, 2], budget, "kk:regress")
+    sp = {"n": 25, "ppd": 5.0, "logf0": 4.0, "fam": "neg", "noise": 0.0, "seed": [18, 1, 2]}
+    cases += _pack("kk", sp, [{"test": "imaginary-inv", "admittance": True, "num_procs": 1}, {"test": "real", "admittance": True, "num_F_ext_evaluations": 10, "num_procs": 1}],
+                   [3, 2], budget, "kk:regress")
     # sparse class (known finding F20): a few default runs at 1 point/decade and below 7 points
     for nn, ppd in ([(5, 2), (13, 1)] if quick else [(3, 2), (4, 1), (5, 2), (6, 3), (9, 1), (13, 1), (14, 1)]):
         sp = _spec(rng, nn, ppd=ppd)
@@ -975,6 +988,8 @@ def gen_cases(tier, seed):
     for ci, (ep, opts, label) in enumerate(MINSIZE_CONFIGS):
         cases.append({"kind": "minsize", "ep": ep, "opts": opts, "label": label, "seed": [int(seed), 18, 1000 + ci], "cost": 6.0, "tag": "minsize"})
 
+    for k, c in enumerate(cases):
+        c["rseed"] = int(seed) * 100000 + k
     cases.sort(key=lambda c: -c.get("cost", 1.0))
     return cases
 
@@ -1006,11 +1021,11 @@ def run_case(case):
     if case["kind"] == "explicit":
         f = np.array(case["f"], dtype=float)
         Z = np.array([complex(a, b) for a, b in case["Z"]])
-        run_call(case["ep"], case["opts"], f, Z, out)
+        run_call(case["ep"], case["opts"], f, Z, out, rseed=case.get("rseed", 0))
     elif case["kind"] == "calls":
         f, Z = make_spectrum(case["spectrum"])
-        for opts in case["calls"]:
-            run_call(case["ep"], opts, f, Z, out)
+        for k, opts in enumerate(case["calls"]):
+            run_call(case["ep"], opts, f, Z, out, rseed=1000 * int(case.get("rseed", 0)) + k)
         out["stats"]["cases:" + case.get("tag", "?")] = 1
     elif case["kind"] == "minsize":
         rng = np.random.default_rng(case["seed"])
@@ -1019,7 +1034,7 @@ def run_case(case):
             sp = _spec(rng, n, ppd=2, fam="rq2", noise=1e-3)
             sp["logf0"] = 4.0
             f, Z = make_spectrum(sp)
-            table[n] = run_call(case["ep"], case["opts"], f, Z, out)
+            table[n] = run_call(case["ep"], case["opts"], f, Z, out, rseed=n)
         out["agg"] = {"minsize": case["label"], "table": table}
     for r in monitors.drain():
         out["viol"].append({"key": "C18/monitor", "msg": r["msg"], "witness": r.get("witness") or {}})
